@@ -4,9 +4,6 @@ import itertools
 
 import numpy as np
 
-from toqito.matrix_ops import vec
-from toqito.perms import swap
-
 
 def apply_channel(mat: np.ndarray, phi_op: np.ndarray | list[list[np.ndarray]]) -> np.ndarray:
     r"""Apply a quantum channel to an operator.
@@ -131,19 +128,10 @@ def apply_channel(mat: np.ndarray, phi_op: np.ndarray | list[list[np.ndarray]]) 
 
     # The superoperator was given as a Choi matrix:
     if isinstance(phi_op, np.ndarray):
-        mat_size = np.array(list(mat.shape))
-        phi_size = np.array(list(phi_op.shape)) / mat_size
+        dim_in_r, dim_in_c = mat.shape
+        dim_out_r, dim_out_c = phi_op.shape[0] // dim_in_r, phi_op.shape[1] // dim_in_c
 
-        a_mat = np.kron(vec(mat).T[0], np.identity(int(phi_size[0])))
-        b_mat = np.reshape(
-            swap(
-                phi_op.T,
-                [1, 2],
-                [[mat_size[1], phi_size[1]], [mat_size[0], phi_size[0]]],
-                True,
-            ).T,
-            (int(phi_size[0] * np.prod(mat_size)), int(phi_size[1])),
-            order="F",
-        )
-        return a_mat @ b_mat
+        # Block (i, j) of the Choi matrix is Phi(E_ij), so Phi(X) = sum_ij X[i, j] * Phi(E_ij).
+        choi_blocks = np.reshape(phi_op, (dim_in_r, dim_out_r, dim_in_c, dim_out_c))
+        return np.einsum("ij,iojp->op", mat, choi_blocks)
     raise ValueError("Invalid: The variable `phi_op` must either be a list of Kraus operators or as a Choi matrix.")
